@@ -125,6 +125,8 @@ def classifiers():
     from sktime.classification.interval_based import TimeSeriesForestClassifier
     from sktime.classification.dictionary_based import BOSSEnsemble, ContractableBOSS, IndividualBOSS
     from sktime.classification.compose import ColumnEnsembleClassifier
+    from sktime.classification.interval_based import RandomIntervalSpectralForest, SupervisedTimeSeriesForest
+    from sktime.classification.dictionary_based import MUSE, IndividualTDE
     L = []
 
     def add(name, f, multivariate=False, cost="fast"):
@@ -138,6 +140,12 @@ def classifiers():
     # an even number of members: tied votes, broken by the seeded generator
     add("boss_ensemble_even", lambda: BOSSEnsemble(max_ensemble_size=4, random_state=3), cost="slow")
     add("cboss", lambda: ContractableBOSS(n_parameter_samples=5, max_ensemble_size=3, random_state=0), cost="slow")
+    add("rise", lambda: RandomIntervalSpectralForest(n_estimators=4, min_interval=4, acf_lag=6, acf_min_values=2, random_state=0))
+    add("stsf", lambda: SupervisedTimeSeriesForest(n_estimators=4, random_state=0))
+    # word selection by chi-squared test switched off (p_threshold=1): with it, a panel in which no word is
+    # significant leaves MUSE without features (open finding MUSE-empty-bag, exercised by C17 only)
+    add("muse", lambda: MUSE(p_threshold=1, random_state=0))
+    add("individual_tde", lambda: IndividualTDE(random_state=0))
     add("column_ensemble", lambda: ColumnEnsembleClassifier(
         [("a", TimeSeriesForestClassifier(n_estimators=3, random_state=0), [0]),
          ("b", TimeSeriesForestClassifier(n_estimators=3, random_state=1), [1])]), multivariate=True)
